@@ -9,6 +9,7 @@ import (
 	"fmt"
 	"sort"
 	"strconv"
+	"strings"
 	"sync"
 	"time"
 
@@ -34,6 +35,7 @@ type Out struct {
 	ID  int    `json:"id"`
 	Obs []any  `json:"obs"`
 	At  []int64 `json:"at,omitempty"` // cache_rt: milliseconds since the start, per operation
+	Pair any    `json:"pair,omitempty"` // cache_take2: what the second, concurrent Take saw
 	Err string `json:"err,omitempty"`
 }
 
@@ -315,6 +317,191 @@ func runCache(c Case, out *Out, realtime bool) {
 	}
 }
 
+
+// ---- cache driven by its own timing wheel, tick by tick -------------------------------
+
+type rticker struct{ c chan time.Time }
+
+func (t *rticker) Chan() <-chan time.Time { return t.c }
+func (t *rticker) Stop()                  {}
+
+// The cache's wheel is quiescent when no goroutine runs (or is about to run) a wheel
+// callback, i.e. cache.Del(key), and every wheel event loop is parked in its select.
+// A send on one of the wheel's unbuffered channels (tick, set, move, remove) returns
+// only after the loop has taken it, and a goroutine that has been handed a value is
+// no longer reported as waiting in select, so polling after the operation returned
+// cannot miss work in progress.  Nothing of the code under test is used to synchronise.
+func cbBusy(stack string) bool {
+	if strings.Contains(stack, "(*TimingWheel).runTasks") ||
+		strings.Contains(stack, "threading.RunSafe") ||
+		strings.Contains(stack, "threading.GoSafe") ||
+		strings.Contains(stack, "collection.NewCache.func") {
+		return true
+	}
+	if strings.Contains(stack, "collection.(*TimingWheel).run(") {
+		head := stack
+		if nl := strings.IndexByte(stack, '\n'); nl >= 0 {
+			head = stack[:nl]
+		}
+		return !strings.Contains(head, "[select")
+	}
+	return false
+}
+
+func runCacheW(c Case, out *Out) {
+	tk := &rticker{c: make(chan time.Time)}
+	timex.SetTickerHook(func(d time.Duration) timex.Ticker { return tk })
+	var opts []collection.CacheOption
+	if c.Limit != 0 {
+		opts = append(opts, collection.WithLimit(c.Limit))
+	}
+	cache, err := collection.NewCache(time.Duration(c.ExpireMs)*time.Millisecond, opts...)
+	timex.SetTickerHook(nil)
+	if err != nil {
+		out.Err = err.Error()
+		return
+	}
+	for _, op := range c.Ops {
+		key := func() string { return "k" + strconv.FormatInt(num(op[1]), 10) }
+		switch op[0].(string) {
+		case "set":
+			cache.SetWithExpire(key(), num(op[2]), time.Duration(num(op[3]))*time.Millisecond)
+		case "get":
+			v, ok := cache.Get(key())
+			out.Obs = append(out.Obs, opt(v, ok))
+		case "del":
+			cache.Del(key())
+		case "take":
+			called := false
+			v, err := cache.Take(key(), func() (any, error) {
+				called = true
+				if op[2] == nil {
+					return nil, errFetch
+				}
+				return num(op[2]), nil
+			})
+			if err != nil {
+				out.Obs = append(out.Obs, []any{"take", nil, called})
+			} else {
+				out.Obs = append(out.Obs, []any{"take", v, called})
+			}
+		case "tick":
+			tk.c <- time.Now()
+		}
+		if !hx.Quiesce(cbBusy, 5*time.Second) {
+			out.Err = "wheel callbacks did not quiesce"
+			return
+		}
+	}
+}
+
+// ---- two concurrent Takes of one key, the first loader gated ----------------------------
+
+func flightWaiter(stack string) bool {
+	return strings.Contains(stack, "flightGroup") && strings.Contains(stack, "sync.(*WaitGroup).Wait")
+}
+
+func runCacheTake2(c Case, out *Out) {
+	var opts []collection.CacheOption
+	if c.Limit != 0 {
+		opts = append(opts, collection.WithLimit(c.Limit))
+	}
+	cache, err := collection.NewCache(time.Hour, opts...)
+	if err != nil {
+		out.Err = err.Error()
+		return
+	}
+	for _, op := range c.Ops {
+		key := func() string { return "k" + strconv.FormatInt(num(op[1]), 10) }
+		switch op[0].(string) {
+		case "set":
+			cache.Set(key(), num(op[2]))
+		case "get":
+			v, ok := cache.Get(key())
+			out.Obs = append(out.Obs, opt(v, ok))
+		case "del":
+			cache.Del(key())
+		case "take":
+			called := false
+			v, err := cache.Take(key(), func() (any, error) {
+				called = true
+				if op[2] == nil {
+					return nil, errFetch
+				}
+				return num(op[2]), nil
+			})
+			if err != nil {
+				out.Obs = append(out.Obs, []any{"take", nil, called})
+			} else {
+				out.Obs = append(out.Obs, []any{"take", v, called})
+			}
+		case "take2":
+			// A: Take(k) with a loader that parks on a gate; B: Take(k) started while A's
+			// loader is parked; then the gate opens
+			k := key()
+			entered := make(chan struct{})
+			gate := make(chan struct{})
+			type res struct {
+				v      any
+				err    error
+				called bool
+			}
+			ra, rb := make(chan res, 1), make(chan res, 1)
+			go func() {
+				called := false
+				v, err := cache.Take(k, func() (any, error) {
+					called = true
+					close(entered)
+					<-gate
+					return num(op[2]), nil
+				})
+				ra <- res{v, err, called}
+			}()
+			select {
+			case <-entered:
+			case <-time.After(5 * time.Second):
+				out.Err = "take2: first loader was not called (key present?)"
+				return
+			}
+			go func() {
+				called := false
+				v, err := cache.Take(k, func() (any, error) {
+					called = true
+					return num(op[3]), nil
+				})
+				rb <- res{v, err, called}
+			}()
+			blocked := false
+			deadline := time.Now().Add(3 * time.Second)
+			for time.Now().Before(deadline) && !blocked {
+				for _, g := range hx.Stacks() {
+					if flightWaiter(g) {
+						blocked = true
+						break
+					}
+				}
+				select {
+				case r := <-rb: // B finished although A's loader is still parked
+					rb <- r
+					deadline = time.Now()
+				default:
+					if !blocked {
+						time.Sleep(200 * time.Microsecond)
+					}
+				}
+			}
+			close(gate)
+			a, b := <-ra, <-rb
+			if a.err != nil || b.err != nil {
+				out.Err = "take2: unexpected error"
+				return
+			}
+			out.Obs = append(out.Obs, []any{"take", a.v, a.called})
+			out.Pair = map[string]any{"b_val": b.v, "b_called": b.called, "b_blocked": blocked}
+		}
+	}
+}
+
 func runCase(c Case) (out Out) {
 	out = Out{ID: c.ID, Obs: []any{}}
 	defer func() {
@@ -337,6 +524,10 @@ func runCase(c Case) (out Out) {
 		runCache(c, &out, false)
 	case "cache_rt":
 		runCache(c, &out, true)
+	case "cachew":
+		runCacheW(c, &out)
+	case "cache_take2":
+		runCacheTake2(c, &out)
 	default:
 		out.Err = "unknown kind " + c.Kind
 	}
